@@ -364,6 +364,9 @@ MODULE_SEED = 1
 LETTERS = ([f'{n}.{c}' for n in ('A', 'B') for c in CALLS] + [f'C.{c}' for c in C_CALLS]
            + ['M.seed', 'M.random', 'M.shuffle', 'S.random', 'S.seed', 'N.new'])
 REDUCED = [f'{n}.{c}' for n in ('A', 'B') for c in ('random', 'shuffle', 'gauss')] + ['M.seed', 'M.random', 'M.gauss', 'S.random', 'N.new']
+MID_CALLS = ('random', 'randoms2', 'randint', 'randints2', 'shuffle', 'choice2', 'choicew', 'gauss')      # one letter per public scalar/bulk method
+MID = [f'{n}.{c}' for n in ('A', 'B') for c in MID_CALLS] + ['C.random', 'M.seed', 'M.random', 'M.gauss', 'S.random', 'N.new']
+ALPHABETS = {'full': LETTERS, 'mid': MID, 'reduced': REDUCED}      # reduced < mid < full, so deeper levels only add the new lengths
 _MODFN = {'random': lambda: cr.random(), 'shuffle': lambda: cr.shuffle([1, 2, 3]), 'gauss': lambda: cr.gauss()}
 _STD0 = stdlib_random.Random(20240905).getstate()
 
@@ -541,7 +544,7 @@ class C05(Check):
             'arguments) of the alphabet (random x 10 bound pairs, randint x 5, choice/choicew x sequences len 0..7 x weights incl. zeros, '
             'shuffle n in {0,1,2,3,5}, gauss pair, randoms/randints/gausses) on a fresh real object; thorough adds one full-orbit pass '
             'per (method, arguments, alignment), cheapest first, until the time budget is used (completed passes listed in evidence). '
-            '(b) HIST: every history of length <=4 (thorough <=5 over 39 letters, <=6 over 11 letters) over {A=CobaRandom(1), '
+            '(b) HIST: every history of length <=4 over 39 letters (thorough adds every history of length 5 over a 22-letter and of length 6 over an 11-letter sub-alphabet): {A=CobaRandom(1), '
             'B=CobaRandom(1)} x 15 calls (every public method and code path), C=CobaRandom(2.5) x 3 calls, module-level seed/random/shuffle, stdlib random/seed, construction of a '
             'further instance; cases = history prefixes of length <=2, each case runs all its extensions; plus 17 seeds constructed twice '
             'under a virtual clock and in 3 subprocesses with PYTHONHASHSEED 1,2,3. A case is non-trivial when: orbit segment - full '
@@ -562,11 +565,11 @@ class C05(Check):
                  'contract predicates, plus exhaustive enumeration of call interleavings on real instances against the same class driven alone')
     LEVEL_TEXT = ('All 2^30 generator states are visited on the real CobaRandom object (closure-checked full orbit) and the uniform contract is decided for every one; '
                   'every method contract is decided on all 2^17 boundary states at every draw position (quick) and on the full orbit for the passes listed in '
-                  'evidence (thorough); purity is decided for every interleaving of <=4 (thorough 5/6) calls over three instances, the module-level functions, '
+                  'evidence (thorough); purity is decided for every interleaving of <=4 calls (thorough: 5 / 6 calls over sub-alphabets of 22 / 11 letters) over three instances, the module-level functions, '
                   'stdlib random and instance construction, and for 17 seeds across 3 fresh processes.')
     LEVEL_NOTE = ('exhaustive over states, finite over arguments (listed) and over history depth; thorough full-orbit method passes not completed within the '
                   'budget are reported as caps and not claimed')
-    MIN_NONTRIVIAL = {'quick': 1500, 'thorough': 1600}
+    MIN_NONTRIVIAL = {'quick': 1500, 'thorough': 2000}
     CASE_TIMEOUT = 3000
     TIMEOUT_IS_VIOLATION = False
 
@@ -579,7 +582,7 @@ class C05(Check):
         if not G.full_period: raise HarnessError('documented LCG constants do not satisfy Hull-Dobell')
 
     def cases(self, tier):
-        depth = 4 if tier == 'quick' else 5
+        depth = 4
         for d in SEEDS: yield {'part': 'seed', 'seed': d}
         for l in LETTERS: yield {'part': 'hist', 'alpha': 'full', 'prefix': [l], 'depth': 1}
         yield {'part': 'boundary', 'side': 'low', 'block': 0}
@@ -591,7 +594,8 @@ class C05(Check):
             yield {'part': 'boundary', 'side': 'high', 'block': b}
         for i in range(NSEG): yield {'part': 'orbit', 'pass': 'uniform', 'seg': i}
         if tier != 'quick':
-            for p in itertools.product(REDUCED, repeat=2): yield {'part': 'hist', 'alpha': 'reduced', 'prefix': list(p), 'depth': 6}
+            for p in itertools.product(MID, repeat=2): yield {'part': 'hist', 'alpha': 'mid', 'prefix': list(p), 'depth': 5, 'min': 5}
+            for p in itertools.product(REDUCED, repeat=2): yield {'part': 'hist', 'alpha': 'reduced', 'prefix': list(p), 'depth': 6, 'min': 6}
             for pid, (m, a, j) in enumerate(orbit_passes()):
                 for i in range(NSEG): yield {'part': 'orbit', 'pass': pid, 'seg': i}
 
@@ -676,13 +680,14 @@ class C05(Check):
             acc.violation(key, what, {'part': 'history', 'ops': list(ops)})
 
     def run_hist(self, case, acc):
-        alpha = LETTERS if case['alpha'] == 'full' else REDUCED
+        alpha = ALPHABETS[case['alpha']]
         prefix = tuple(case['prefix'])
         depth = case['depth']
         nh = nt = 0
         interleaved = 0
         reported = 0
-        ext = [()] if depth <= len(prefix) else itertools.chain([()], histories(alpha, depth - len(prefix)))
+        lo = max(case.get('min', 0) - len(prefix), 0)         # 'min': only histories of at least this total length (shorter ones belong to another case)
+        ext = histories(alpha, depth - len(prefix), lo) if lo else ([()] if depth <= len(prefix) else itertools.chain([()], histories(alpha, depth - len(prefix))))
         coba_actor = {'A', 'B', 'C', 'M', 'N'}
         for e in ext:
             ops = prefix + e
@@ -782,11 +787,21 @@ class C05(Check):
             acc.transitions += n
         acc.count('orbit_method_calls_uniforms', L)
         if intact:
-            peek = r.random()                                 # one further value: must be the next segment's first state
-            if int(peek * M) != G.step(cur) or peek * M != int(peek * M):
-                acc.violation('orbit|real stream leaves the documented 2^30-state LCG cycle|method pass',
-                              f'pass {name} segment {i}: after {L} draws from CobaRandom({start}) the next uniform is {peek!r}, the LCG gives {G.step(cur) / M!r}', case)
+            # Coverage closure of a method pass: the real object must now stand at the next segment's start.  How many
+            # uniforms a method draws is not part of the property (a redraw in one state is legitimate), so a small
+            # overrun into the next segment still covers every state of this one; anything else is a coverage cap,
+            # never a violation (the state space itself is closure-checked by the uniform pass).
+            peek = r.random()
+            nxt = G.step(cur)
+            over = None
+            for d in range(0, 9):
+                if peek * M == nxt: over = d; break
+                nxt = G.step(nxt)
+            if over is None:
+                acc.cap(f'orbit pass not closed (the method does not draw the modelled number of uniforms): {name}')
+                acc.outcome(('orbit', pid, i, 'open')); acc.mark_nontrivial()
                 return
+            if over: acc.count('orbit_method_pass_segments_with_overrun')
             acc.traces += 1
             acc.note(f'closure|{pid}', {f'{i}:{start}:{cur}'})
         else:
